@@ -193,8 +193,17 @@ class PyEval(MiniEval):
                         raise Unsupported(f"f-string part {x!r}")
                     out += str(x)
             return out
-        if isinstance(e, ast.List):
-            return [self.ev(x, env) for x in e.elts]
+        if isinstance(e, ast.List) or (isinstance(e, ast.Tuple) and any(isinstance(x, ast.Starred) for x in e.elts)):
+            out_l: list = []
+            for x in e.elts:
+                if isinstance(x, ast.Starred):
+                    v = self.ev(x.value, env)
+                    if not isinstance(v, (list, tuple)):
+                        raise Unsupported(f"splat of {v!r}")
+                    out_l.extend(v)
+                else:
+                    out_l.append(self.ev(x, env))
+            return out_l if isinstance(e, ast.List) else tuple(out_l)
         if isinstance(e, ast.Dict):
             out_d: dict = {}
             for k, v in zip(e.keys, e.values):
@@ -244,6 +253,19 @@ class PyEval(MiniEval):
         return super().ev(e, env)
 
     def assign(self, target: ast.expr, value: Any, env: dict) -> None:
+        if isinstance(target, ast.Subscript):
+            try:
+                base = self.ev(target.value, env)
+            except Unsupported:
+                base = None
+            if isinstance(base, dict):
+                base[self.ev(target.slice, env)] = value
+                return
+            if isinstance(base, list) and not isinstance(target.slice, ast.Slice):
+                i = self.ev(target.slice, env)
+                if isinstance(i, int) and -len(base) <= i < len(base):
+                    base[i] = value
+                    return
         if isinstance(target, (ast.Tuple, ast.List)) and any(isinstance(t, ast.Starred) for t in target.elts):
             if not isinstance(value, (list, tuple)):
                 raise Unsupported("starred unpacking of non-sequence")
